@@ -221,6 +221,28 @@ def stepC09 (C : List (List Nat)) (ws : List String) : List (List Nat) × Resp :
       | some db => showDb db
       | none => "err MismatchKSizes"
     (C, { model := r })
+  | ["faulty", split, t, seed, fails, via, _how, phase] =>
+    -- a build over a storage that cannot deliver the signatures of `fails`: `map_hashes_colors` of such a
+    -- dataset panics in `sig_for_dataset` before its first write; rayon lets every other task finish before
+    -- the panic leaves the pool, and `save_collection` is not reached: the stored manifest stays the old one
+    let F := if fails == "-" then [] else (fails.splitOn "+").filterMap String.toNat?
+    let upd := via == "update"
+    let seed := seed.toNat! + 7919 * t.toNat!
+    let C1 := if upd then C.take split.toNat! else []
+    let db1 : Db := if upd then createDb codec C1 (choicesFrom (seed + 1) C1.length (2 * nWrites C1)) (groupingFrom (seed / 3)) else {}
+    let proc1 := loadProcessed codec db1 C1.length (!upd)
+    let doing := (todo proc1 C.length).filter (fun d => !F.contains d)
+    let hit := (todo proc1 C.length).any (fun d => F.contains d)
+    let db2 := abortedBuild codec db1 C doing (choicesFrom seed C.length (2 * nWrites C)) (groupingFrom seed)
+    -- without a failing dataset the faulty build is an ordinary one (and writes its manifest)
+    let tag := if hit then "aborted" else "completed"
+    -- which of the other datasets the aborted build got to is up to rayon's splitting (the datasets that
+    -- follow a failing one in the same sequential chunk are skipped): the state it leaves is judged by
+    -- the invariants; the model continues from one of the possible states (every other dataset done)
+    if phase == "mid" then (C, { model := "-", spec := s!"{tag} inv-ok" }) else
+    let proc2 := loadProcessed codec db2 (if hit then C1.length else C.length) (!upd)
+    let db3 := buildInto codec db2 proc2 C (choicesFrom (seed + 2) C.length (2 * nWrites C)) (groupingFrom (seed / 7))
+    (C, { model := s!"{tag} {showDb db3}", spec := s!"{tag} {specDb C}" })
   | "reduce" :: toks =>
     let r := match parseRTree toks with
       | some (t, _) => match t.eval C with
